@@ -265,6 +265,26 @@ class Interp(object):
             return self.call_expr(e, env)
         if isinstance(e, ast.JoinedStr):
             return Opaque("fstring")
+        if isinstance(e, (ast.ListComp, ast.GeneratorExp)):
+            # evaluated eagerly over concrete sequences (the functions interpreted here consume what they build)
+            out = []
+
+            def gen(i, env2):
+                if i == len(e.generators):
+                    out.append(self.expr(e.elt, env2))
+                    return
+                g0 = e.generators[i]
+                it = self.expr(g0.iter, env2)
+                if not isinstance(it, (list, tuple, str)) or isinstance(it, ListOfLen):
+                    raise Undecided("comprehension over %r" % (it,))
+                for v in it:
+                    self.tick()
+                    env3 = dict(env2)
+                    self.assign(g0.target, v, env3)
+                    if all(self.truth(self.expr(c, env3)) for c in g0.ifs):
+                        gen(i + 1, env3)
+            gen(0, dict(env))
+            return out
         raise Undecided("expression %s" % type(e).__name__)
 
     def compare(self, op, a, b):
